@@ -121,6 +121,10 @@ def devs (op : String) (how : String) (r0 : Recv) (rm : Recv) (args : List Val) 
         (let s0 := if n1.i < 0 then 0 else n1.i
          !isASCII (value.take (s0 + tlen).toNat))),
     ("split_empty_sep_astral", op == "split" && emptySep a0 && hasAstral value),
+    ("case_special", (op == "toLowerCase" && (U value).any (fun u => !isSurr u && Spec.lowerUnit u != [goLower u]))
+        || (op == "toUpperCase" && (U value).any (fun u => !isSurr u && Spec.upperUnit u != [goUpper u]))),
+    ("case_astral", (op == "toLowerCase" && (decodeRunes value).any (fun c => decide (c ≥ 0x10000) && goLower c != c))
+        || (op == "toUpperCase" && (decodeRunes value).any (fun c => decide (c ≥ 0x10000) && goUpper c != c))),
     ("toUint_big", (op == "split" && isNumArg a1 && bigInt a1) || (op == "fromCharCode" && args.any bigInt))
   ]
   (d.filter (·.2)).map (·.1)
@@ -143,6 +147,8 @@ def methods (op : String) : Option (Method × Method) :=
   | "split" => some (C09.split, Spec.split)
   | "trim" => some (C09.trim, Spec.trim)
   | "localeCompare" => some (C09.localeCompare, Spec.localeCompare)
+  | "toLowerCase" => some (C09.toLowerCase, Spec.toLowerCase)
+  | "toUpperCase" => some (C09.toUpperCase, Spec.toUpperCase)
   | "length" => some (fun E r _ => C09.length E r, fun E r _ => Spec.length E r)
   | "index" => some (fun E r a => C09.index E r (argAt a 0), fun E r a => Spec.index E r (argAt a 0))
   | _ => none
